@@ -93,7 +93,7 @@ V3_HEADER_SIZES = [4, 4, 8, 4, 4, 8, 8, 4, 4, 4, 4, 4]
 def v3_header(fields, cpu_info_plist_bytes):
     """after the 4 magic bytes: 60 fixed bytes, u64 length, plist, pad to 8 (relative to offset 4), 4 bytes"""
     h = b''.join(le(fields[k], n) for k, n in zip(V3_HEADER_FIELDS, V3_HEADER_SIZES))
-    assert len(h) == 56
+    assert len(h) == 60
     h += le(len(cpu_info_plist_bytes), 8) + cpu_info_plist_bytes
     h += bytes(-len(h) % 8)
     h += bytes(4)
@@ -117,12 +117,12 @@ def v3_events(chunks, more_fillers=None):
     return out
 
 
-def v3_file(hdr_fields, cpu_plist, filler1, filler2, threadmap, chunks, more_fillers, blocks, last_pad=True):
+def v3_file(hdr_fields, cpu_plist, filler1, filler2, threadmap, chunks, more_fillers, blocks, last_pad=True, filler3=b''):
     """blocks: list of (tag, payload bytes)"""
     out = V3_MAGIC + v3_header(hdr_fields, cpu_plist)
     out += filler1 + STACKSHOT_END + filler2 + TAG_THREADMAP
     tm = b''.join(threadmap_entry(*t) for t in threadmap)
-    out += le(len(tm), 8) + tm
+    out += le(len(tm), 8) + tm + filler3
     out += v3_events(chunks, more_fillers)
     for i, (tag, payload) in enumerate(blocks):
         out += v3_block(tag, payload, pad=(last_pad or i < len(blocks) - 1))
